@@ -93,7 +93,7 @@ DoAdd(who, l, blob, orc) ==
           /\ g' = g2
           /\ viol' = viol \cup AbortTag("Add", x)
                           \cup Tags("Add", C06_Request(st, E, x.st) \cup C07_Add(st, E, x.st) \cup C07_Copies(x.st)
-                                          \cup C01_Add(st, E, x.st, g) \cup C08_Add(st, E, x.st)
+                                          \cup C01_Add(st, E, x.st, g) \cup C08_Add(st, E, x.st, g)
                                           \cup C02_Sends(st, E, x.st, g) \cup C02_Status(st, E, x.st, g2))
           /\ hist' = Append(hist, [op |-> "add", who |-> who, l |-> l, blob |-> blob, ver |-> a.ver, code |-> rep.code,
                                    orc |-> {<<tx, orc[tx]>> : tx \in {t \in TxU : orc[t] # "none"}}])
